@@ -164,7 +164,7 @@ func checkStream(c *mon.C, shapes []gen.Shape, side ref.Side, nplans int) bool {
 				}
 				var src io.Reader = ch
 				o.Retry = false
-				if o.Entry == "reader" && bi == 0 && pi == 0 && o.Intermediate == 0 && o.Discard == nil && len(starts) > 0 {
+				if o.Entry == "reader" && bi == 0 && pi == 0 && o.Intermediate == 0 && len(starts) > 0 {
 					// a deadline-driven read loop: one read of the transport times out (nothing consumed) in front of a
 					// frame header, the consumer calls again - the events are the same
 					o.Retry = true
